@@ -46,6 +46,12 @@ def main(argv):
     n = 16 if a.tier == "quick" else 100
     opts = common_opts()
     texts = [t for t, _ in GD.stratified(rng, opts)]
+    # shapes every back end must agree on that random generation rarely produces (corpus/common)
+    cdir = os.path.join(C.VERIF, "corpus", "common")
+    if os.path.isdir(cdir):
+        for f in sorted(os.listdir(cdir)):
+            if f.endswith(".pdl"):
+                texts.append(open(os.path.join(cdir, f)).read())
     while len(texts) < n:
         texts.append(GD.generate(rng, opts)[0])
     # one Backend per back end over the SAME texts; keep only descriptions every back end builds
